@@ -1568,3 +1568,55 @@ _RES_PROP_SRC = _RESERVOIR_SRC.replace("    def add(self, val):\n", "    @proper
     .replace("        if len(self._data) < self._cap:\n", "        if self._data_count < self._cap:\n").replace("        if new_size >= len(self._data):\n", "        if new_size >= self._data_count:\n")
 T('h5_store_moved_with_size_property', ['C19'], *_moved_store(_RES_PROP_SRC))
 B('h5_store_moved_with_size_property_one_too_many', ['C19'], 'R19.c', *_moved_store(_RES_PROP_SRC.replace("        if self._data_count < self._cap:\n", "        if self._data_count <= self._cap:\n")))
+
+
+# ================================================================================================ round f of seeded changes
+# ---- R19.a: the status keys of one route are of one kind (text): the code is filed under its rendering on both paths ------------------
+_ST_OK_KEY = "            resp_status = repr(getattr(resp, 'status_code', resp.__class__.__name__))\n"
+_ST_OK_MIME = "            resp_mime_type = (getattr(resp, 'content_type', None) or '').partition(';')[0]\n"
+_ST_EXC_MIME = "            resp_mime_type = getattr(e, 'content_type', '').partition(';')[0]\n"
+_ST_SMW = "class StatsMiddleware(Middleware):\n    def __init__(self):\n        self.reset()\n"
+
+
+def _outcome_helper(status):
+    return [(STATS, _ST_SMW, "def _describe_outcome(obj, code_attr):\n    status = " + status + "\n"
+                             "    mime_type = (getattr(obj, 'content_type', None) or '').partition(';')[0]\n    return status, mime_type\n\n\n" + _ST_SMW),
+            (STATS, _ST_OK_KEY + _ST_OK_MIME, "            resp_status, resp_mime_type = _describe_outcome(resp, 'status_code')\n"),
+            (STATS, _ST_EXC_KEY + _ST_EXC_MIME, "            resp_status, resp_mime_type = _describe_outcome(e, 'code')\n")]
+
+
+T('h6_status_key_rendered_inside_a_shared_helper', ['C19', 'C15'], *_outcome_helper("repr(getattr(obj, code_attr, obj.__class__.__name__))"))
+T('h6_status_key_rendered_by_str_and_percent', ['C19'], (STATS, _ST_OK_KEY, "            resp_status = str(getattr(resp, 'status_code', resp.__class__.__name__))\n"),
+  (STATS, _ST_EXC_KEY, "            resp_status = '%s' % (getattr(e, 'code', e.__class__.__name__),)\n"))
+B('h6_status_key_helper_hands_out_the_code_itself', ['C19'], 'R19.a', *_outcome_helper("getattr(obj, code_attr, obj.__class__.__name__)"))
+B('h6_status_key_unrendered_on_the_normal_path', ['C19'], 'R19.a',
+  (STATS, _ST_OK_KEY, "            resp_status = getattr(resp, 'status_code', resp.__class__.__name__)\n"))
+B('h6_status_key_code_or_name_by_test_unrendered', ['C19'], 'R19.a',
+  (STATS, _ST_EXC_KEY, "            resp_status = e.code if hasattr(e, 'code') else e.__class__.__name__\n"))
+B('h6_status_key_only_the_name_rendered', ['C19'], 'R19.a',
+  (STATS, _ST_EXC_KEY, "            resp_status = getattr(e, 'code', repr(e.__class__.__name__))\n"))
+
+# ---- R15.j: what a hook does once next() has answered cannot fail: sequence indices entailed in bounds (or absorbed) ------------------
+_ST_RESET_LAST = "        self.last_reset = datetime.datetime.utcnow()\n"
+_ST_FILE_HIT = "            self.route_hits[_route][resp_status].add(hit)\n"
+_RING = (STATS, _ST_RESET_LAST, _ST_RESET_LAST + "        self.recent = [None] * 8\n        self.n_seen = 0\n")
+_IDX_STORE = "        idx = fast_randint(0, self._total_count)\n        if idx < self._cap:\n            self._data[idx] = val\n        return\n"
+T('h6_recent_hits_slot_tested', ['C15', 'C19'], _RING,
+  (STATS, _ST_FILE_HIT, _ST_FILE_HIT + "            if self.n_seen < len(self.recent):\n                self.recent[self.n_seen] = hit\n                self.n_seen += 1\n"))
+T('h6_recent_hits_index_error_absorbed', ['C15', 'C19'], _RING,
+  (STATS, _ST_FILE_HIT, _ST_FILE_HIT + "            try:\n                self.recent[self.n_seen] = hit\n                self.n_seen += 1\n"
+                                       "            except IndexError:\n                self.n_seen = 0\n"))
+T('h6_sample_index_tested_against_the_store', ['C15', 'C19'],
+  (STATS, _IDX_STORE, "        idx = fast_randint(0, self._total_count)\n        if idx < len(self._data):\n            self._data[idx] = val\n        return\n"))
+B('h6_recent_hits_slot_never_wraps', ['C15'], 'R15.j', _RING,
+  (STATS, _ST_FILE_HIT, _ST_FILE_HIT + "            self.recent[self.n_seen] = hit\n            self.n_seen += 1\n"))
+B('h6_sample_index_guard_clause_one_too_far', ['C15', 'C19'], {'C15': 'R15.j', 'C19': 'R19.c'},
+  (STATS, _IDX_STORE, "        idx = fast_randint(0, self._total_count)\n        if idx > self._cap:\n            return\n        self._data[idx] = val\n        return\n"))
+B('h6_sample_index_one_based', ['C15', 'C19'], {'C15': 'R15.j', 'C19': 'R19.c'},
+  (STATS, _IDX_STORE, "        idx = fast_randint(1, self._total_count)\n        if idx <= self._cap:\n            self._data[idx] = val\n        return\n"))
+B('h6_subclass_appends_by_position', ['C15'], 'R15.j',
+  (STATS, "        self.total_duration = 0.0\n        super(RouteStatReservoir, self).__init__()\n",
+          "        self.total_duration = 0.0\n        self.slowest = []\n        super(RouteStatReservoir, self).__init__()\n"),
+  (STATS, "        self.last_hit = hit.start_time\n", "        self.last_hit = hit.start_time\n        self.slowest[len(self.slowest)] = hit.duration\n"))
+B('h6_sample_index_bound_stale_after_truncation', ['C15'], 'R15.j',
+  (STATS, _IDX_STORE, "        idx = fast_randint(0, self._total_count)\n        if idx < len(self._data):\n            self._data.pop()\n            self._data[idx] = val\n        return\n"))
